@@ -807,3 +807,70 @@ def unit_subspaces_from_indices(nb, symbolic, timeout_ms=10000):
                                detail=f"block {b}: column selector {cols!r}; want np.compress(labels == {b}, np.arange(dim))")
     return run_unit(f"block_diagonalization:_subspaces_from_indices[{nb} blocks{',symbolic' if symbolic else ''}]", harness,
                     functions=[(MODULE, "_subspaces_from_indices")], timeout_ms=timeout_ms)
+
+
+# ------------------------------------------------------------------------------------------------
+def unit_extract_diagonal(nb, implicit, timeout_ms=10000):
+    """_extract_diagonal: entry b of the result is the diagonal of the zeroth-order diagonal block (b, b), for every explicit block
+    (the implicit last block is skipped); a zero block gives the scalar array 0; a non-diagonal block only triggers a warning."""
+    fn = frontend.find(MODULE, "_extract_diagonal")
+
+    def harness(eng):
+        ninf = eng.fresh("n_infinite")
+        eng.assume(ninf >= 1)
+        nexp = nb - (1 if implicit else 0)
+        zflags = [eng.fresh(f"block_{b}_is_zero", "bool") for b in range(nexp)]
+        blocks = [ZERO if eng.branch(zflags[b]) else Val(f"H0[{b},{b}]", ("ndarray",)) for b in range(nexp)]
+        diag_ok = eng.fresh("all_blocks_diagonal", "bool")
+        warned = []
+        reads = []
+
+        class Op(Model):
+            def m_getattr(s, e, name):
+                if name == "shape":
+                    return STup([nb, nb])
+                if name == "n_infinite":
+                    return SI(ninf)
+                raise Unsupported(name)
+
+            def m_getitem(s, e, key):
+                reads.append(e.as_seq(key))
+                return STup(list(blocks), None, True)
+
+        def arange(e, n):
+            if not isinstance(n, int):
+                raise Unsupported("arange of symbolic size")
+            return T("arange", n)
+        masked = T("np.ma.masked")
+        eng.globals.update({
+            "np": Namespace("np", {"arange": Builtin("arange", arange), "array": Builtin("array", lambda e, x, dtype=None: T("np.array", x) if not isinstance(x, int) else T("np.array", x)),
+                                   "ma": Namespace("ma", {"masked": masked})}),
+            "sympy": Namespace("sympy", {"MatrixBase": TypeObj("MatrixBase")}), "zero": ZERO,
+            "is_diagonal": Builtin("is_diagonal", lambda e, h, atol=None: SB(diag_ok)),
+            "warn": Builtin("warn", lambda e, *a, **k: warned.append(a)), "UserWarning": TypeObj("UserWarning"),
+        })
+        T_getattr = T.m_getattr
+
+        def patched(self, e, name):
+            if name == "diagonal":
+                return Builtin("diagonal", lambda e2: T("diagonal-of", self))
+            return T_getattr(self, e, name)
+        T.m_getattr = patched
+        try:
+            res = eng.call(Closure(fn, Env(None, {}), "_extract_diagonal"), [Op(), T("atol"), implicit, STup([])], {})
+        finally:
+            T.m_getattr = T_getattr
+        r = eng.as_seq(res)
+        ok = r.tail is None and len(r.items) == nexp
+        eng.oblige("one-entry-per-explicit-block", z3.BoolVal(ok), detail=repr(res)[:200])
+        okr = len(reads) == 1 and len(reads[0].items) == 2 and reads[0].tail is not None and all(isinstance(x, T) and x.head == "arange" and x.args[0] == nexp for x in reads[0].items)
+        eng.oblige("reads-the-zeroth-order-diagonal-blocks-of-the-explicit-subspaces", z3.BoolVal(okr), detail=repr(reads)[:200])
+        if ok:
+            for b in range(nexp):
+                v = r.items[b]
+                if blocks[b] is ZERO:
+                    eng.oblige(f"block{b}:zero-block-gives-scalar-zero", z3.BoolVal(isinstance(v, T) and v.head == "np.array" and v.args[0] == 0))
+                else:
+                    eng.oblige(f"block{b}:energies-are-the-diagonal-of-the-block", z3.BoolVal(isinstance(v, T) and v.head == "diagonal-of" and v.args[0] is blocks[b]), detail=repr(v))
+        eng.oblige("non-diagonal-block-only-warns", z3.BoolVal(len(warned) == 1) == z3.Not(diag_ok) if nexp else z3.BoolVal(not warned))
+    return run_unit(f"block_diagonalization:_extract_diagonal[{nb} blocks{',implicit' if implicit else ''}]", harness, functions=[(MODULE, "_extract_diagonal")], timeout_ms=timeout_ms)
